@@ -12,7 +12,9 @@ RULE = (
     'strings; arrays of length 0-2 incl. empty); they must agree wherever the original is defined. Also: same type, '
     'predicate->predicate with vacuous truth/contradiction exactly when the condition folds to True/False; simplify '
     'may raise only for an identically-zero divisor or an undefined constant sub-term. A secondary family builds multi-argument '
-    'calls (max, min, gcd, log, atan2) through the API, which text cannot express. Non-trivial: simplify changed '
+    'calls (max, min, gcd, log, atan2) through the API, which text cannot express. A third of the inputs are not parser output but the '
+    'result of one or two other API functions applied to it (simplify itself, negate, a part of split_and, a half of refactor_reference, join, '
+    'the this/var replacements). Non-trivial: simplify changed '
     'the tree and at least one valuation was defined; distinct by text.'
 )
 ASSUMPTIONS = [
@@ -79,14 +81,64 @@ def _contains_zero_divisor_or_undefined_constant(model, envs):
     return False
 
 
+PRE_STEPS = ('simplify', 'negate', 'split_first', 'split_last', 'refactor_1', 'refactor_2', 'join_self', 'this_var_this')
+
+
+def apply_pre(a, pre):
+    """The input of simplify need not come from the parser: apply a pipeline of other API functions to the parsed AST
+    first (their results are predicates / expressions like any other). Returns None when a step does not apply."""
+    from hpl import rewrite as rw
+    from hpl.ast import Not
+
+    for step in pre:
+        pred = bool(getattr(a, 'is_predicate', False))
+        boolean = pred or (getattr(a, 'is_expression', False) and a.data_type.value == 1)
+        try:
+            if step == 'simplify':
+                a = rw.simplify(a)
+            elif step == 'negate':
+                if not boolean:
+                    return None
+                a = a.negate() if pred else Not(a)
+            elif step in ('split_first', 'split_last'):
+                if not boolean:
+                    return None
+                parts = rw.split_and(a)
+                if not parts:
+                    return None
+                a = parts[0 if step == 'split_first' else -1]
+            elif step in ('refactor_1', 'refactor_2'):
+                if not boolean:
+                    return None
+                a = rw.refactor_reference(a, 'A')[0 if step == 'refactor_1' else 1]
+            elif step == 'join_self':
+                if not pred:
+                    return None
+                a = a.join(a.negate().negate())
+            elif step == 'this_var_this':
+                a = rw.replace_var_with_this(rw.replace_this_with_var(a, 'V9'), 'V9')
+            else:
+                raise ValueError(step)
+        except (TypeError, ValueError, AssertionError, AttributeError, KeyError, IndexError, ZeroDivisionError, OverflowError):
+            return None  # whether these functions fail is the business of C14
+        except Exception:
+            return None
+    return a
+
+
 def check_case(inp, limit=64, stats=None):
-    """inp: {'kind': 'expression'|'predicate'|'condition', 'text', 'this': schema|None, 'aliases': {name: schema}}"""
+    """inp: {'kind': 'expression'|'predicate'|'condition', 'text', 'this': schema|None, 'aliases': {name: schema}, 'pre': [steps]?}"""
     kind, text = inp['kind'], inp['text']
     k, a = lib.outcome(kind, text)
     if k != 'ast':
         return 'rejected-by-parser'
+    if inp.get('pre'):
+        a = apply_pre(a, inp['pre'])
+        if a is None:
+            return 'pre-not-applicable'
+        text = f'{"+".join(inp["pre"])}({text})'
     simplify = _simplify()
-    is_pred = kind != 'expression'
+    is_pred = bool(getattr(a, 'is_predicate', False))
     model = astx.to_model(a)
     if not ev.closed_ok(model):
         return 'size-bound'
@@ -247,7 +299,10 @@ def random_cases(ch):
     else:
         m, schema, aliases = gen.standalone_predicates(ch, depth=depth)
     text = mast.render(('pred', m) if kind == 'predicate' else m)
-    return {'kind': kind, 'text': text, 'this': schema, 'aliases': aliases}
+    pre = []
+    if ch.int(0, 2) == 0:
+        pre = [ch.pick(PRE_STEPS) for _ in range(ch.int(1, 2))]
+    return {'kind': kind, 'text': text, 'this': schema, 'aliases': aliases, 'pre': pre}
 
 
 def shard(ctx, shard_no, nshards, n_random, small_stride):
@@ -256,7 +311,10 @@ def shard(ctx, shard_no, nshards, n_random, small_stride):
 
     def body(inp):
         r = check_case(inp, limit=limit, stats=stats)
-        ctx.case(inp['text'], r == 'changed', 'random:' + r, sample=inp['text'] if r == 'changed' else None)
+        label = 'random:' if not inp.get('pre') else 'derived-input:'
+        ctx.case((inp['text'], tuple(inp.get('pre') or ())), r == 'changed', label + r, sample=inp['text'] if r == 'changed' and not inp.get('pre') else None)
+        for st_ in inp.get('pre') or ():
+            ctx.count('pre-step:' + st_)
 
     with ctx.timed('random'):
         core.run_hypothesis(ctx, 'random', from_tape(random_cases), body, n_random)
@@ -283,6 +341,16 @@ def shard(ctx, shard_no, nshards, n_random, small_stride):
                 ctx.report(v)
                 r = 'violation'
             ctx.case(inp['text'], r == 'changed', f'small:{name}:{r}', sample=inp['text'] if r == 'changed' else None)
+            if r == 'changed' and idx % 8 == 0:
+                # the simplified form is itself an input (second application), and so is its negation
+                for pre in (['simplify'], ['simplify', 'negate']):
+                    inp2 = dict(inp, pre=pre)
+                    try:
+                        r2 = check_case(inp2, limit=limit, stats=stats)
+                    except Violation as v:
+                        ctx.report(v)
+                        r2 = 'violation'
+                    ctx.case((inp['text'], tuple(pre)), r2 == 'changed', f'small-derived:{r2}')
             idx += small_stride * nshards
     for k, v in stats.items():
         ctx.count(k, v)
